@@ -3,6 +3,7 @@ import Abmarl.Model.MgrDriver
 import Abmarl.Model.GridDriver
 import Abmarl.Model.TrainerDriver
 import Abmarl.Model.BuildersDriver
+import Abmarl.Model.AdaptersDriver
 import Abmarl.Model.MaskDriver
 /-! Line-protocol driver: one request per line on stdin, one reply per line on stdout. -/
 open Abmarl
@@ -17,6 +18,8 @@ def dispatch (line : String) : String :=
       | "trainer" => TrainerDriver.handle args
       | "build" => BuildersDriver.handle args
       | "mask" => MaskDriver.handle args
+      | "gym" => AdaptersDriver.handleGym args
+      | "ospiel" => AdaptersDriver.handleOS args
       | "ping" => some (.list (.atom "pong" :: args))
       | _ => none
     match r with
